@@ -45,11 +45,14 @@ def _alphabet(tier):
              cm.on_carrier([('AND', 'x', ('OR', 'y', 'z')), ('EXCLUDES', 'x', 'z')]),
              cm.on_carrier([('XOR', 'x', 'y')]),
              sh.M(sh.F('Fa', [sh.R(1, 2, [sh.F('Bb'), sh.F('Dc')]), sh.R(1, 1, [sh.F('Ad', [sh.R(0, 1, [sh.F('Ee')])])])]))]
-    return ms + extra
+    # 4-feature models whose root owns a 2-child group and one grouped child has a child of its own:
+    # same parent / children names / bounds as a 3-feature model of the alphabet, different subtree
+    four = [m for m in sp.structures(4) if len(m[0][1]) == 1 and len(m[0][1][0][2]) == 2]
+    return ms + four + extra
 
 
 def _sub_alphabet(alpha):
-    return alpha[:4] + alpha[10:12] + alpha[-4:]
+    return alpha[:4] + alpha[10:12] + alpha[28:34:2] + alpha[-4:]
 
 
 def cases(tier, seed):
